@@ -29,7 +29,7 @@ LEVEL = "fault_enumeration"
 TECHNIQUE = META["C06"]["technique"]
 RULE = (
     "fault = (graph, stage in {source, mid plugin, multi-output plugin, loader, saver of target, saver of side "
-    "output, consumer close, none}, chunk index 0..n-1, lazy/eager, pool/no pool, processor); every position is "
+    "output, chunk write on a pool worker thread, consumer close, none}, chunk index 0..n-1, lazy/eager, pool/no pool, processor); every position is "
     "enumerated and executed under several cooperative schedules (random + PCT), once with the single-thread "
     "processor and a subset with real threads; distinct = (fault position, interleaving signature); "
     "non-trivial = the fault was reached (or the run had >= 2 chunks for fault-free runs)"
@@ -85,6 +85,8 @@ def positions(gname, g):
         pos.append({"stage": "saver_target", "who": g["target"], "at": i})
         pos.append({"stage": "saver_side", "who": g["side"], "at": i})
         pos.append({"stage": "close", "at": i})
+        pos.append({"stage": "pool_write", "who": g["side"], "at": i, "needs_pool": True})
+        pos.append({"stage": "pool_write", "who": g["target"], "at": i, "needs_pool": True})
         if gname == "chain":
             pos.append({"stage": "loader", "who": "r1", "at": i})
     if gname == "loop":
@@ -120,13 +122,25 @@ class FaultInjector:
                 raise me.exc
             return me.orig_save(saver, data, chunk_info, executor=executor)
 
+        self.orig_save_file = strax.save_file
+
+        def save_file(f, data, compressor="zstd"):
+            # the chunk write itself (runs on a pool worker thread when saving through an executor)
+            if pos["stage"] == "pool_write" and isinstance(f, str) and os.path.basename(f).startswith(pos["who"] + "-") \
+                    and f.endswith("-%06d" % pos["at"]):
+                me.reached = True
+                raise me.exc
+            return me.orig_save_file(f, data, compressor)
+
         strax.FileSytemBackend._read_chunk = read_chunk
         strax.FileSaver._save_chunk = save_chunk
+        strax.save_file = save_file
         return self
 
     def __exit__(self, *a):
         strax.FileSytemBackend._read_chunk = self.orig_read
         strax.FileSaver._save_chunk = self.orig_save
+        strax.save_file = self.orig_save_file
 
 
 def run_one(gname, g, pos, cfg, chooser=None, real=False):
@@ -274,8 +288,11 @@ def all_jobs(tier):
                 for pool in (False, True):
                     if pool and lazy:
                         continue  # lazy mode is disabled with worker pools
+                    if pos.get("needs_pool") and not pool:
+                        continue
                     jobs.append({"g": gname, "pos": pos, "cfg": {"processor": "threaded_mailbox", "lazy": lazy, "pool": pool}})
-            jobs.append({"g": gname, "pos": pos, "cfg": {"processor": "single_thread", "lazy": True, "pool": False}})
+            if not pos.get("needs_pool"):
+                jobs.append({"g": gname, "pos": pos, "cfg": {"processor": "single_thread", "lazy": True, "pool": False}})
     return jobs
 
 
